@@ -13,9 +13,16 @@ import (
 // verifAnyForm draws a collection of an arbitrary form: empty; a singleton of every System type with a boundary-rich
 // symbolic payload; FHIR primitive elements; a complex element; two items.
 func verifAnyForm(label string) system.Collection {
-	switch verifrt.Choose(label+".form", 13) {
+	switch verifrt.Choose(label+".form", 14) {
 	case 0:
 		return system.Collection{}
+	case 13:
+		// a Decimal beyond what a float64 holds (1e400: +Inf as a float) or below it (1e-400: 0 as a float)
+		e := int32(400)
+		if verifrt.NondetBool(label + ".tiny") {
+			e = -400
+		}
+		return system.Collection{system.Decimal(decimal.New(int64(verifrt.NondetIntRange(label+".hm", -9, 9)), e))}
 	case 1:
 		return system.Collection{system.Integer(verifrt.NondetInt32(label + ".i"))}
 	case 2:
